@@ -49,7 +49,16 @@ pub(super) enum EndStreamAction {
 /// the outcome (in particular, "backend closed without response" is normalised
 /// to **502 Bad Gateway**).
 pub(super) fn end_stream_decision(stream: &Stream) -> EndStreamAction {
-    if stream.back.is_main_phase() {
+    // An interim response (100 Continue, 103 Early Hints) still sitting in the
+    // response buffer is not a response: the H1 parser marks it Terminated, so
+    // without this test a backend lost right after it counted as "fully
+    // terminated response", the interim was forwarded, and the request was left
+    // with no final answer and no timer (the client hung past every timeout).
+    let interim = matches!(
+        stream.back.detached.status_line,
+        kawa::StatusLine::Response { code, .. } if (100..200).contains(&code) && code != 101
+    );
+    if stream.back.is_main_phase() && !interim {
         if stream.back.is_terminated() {
             EndStreamAction::ForwardTerminated
         } else if !stream.context.keep_alive_backend {
